@@ -82,6 +82,9 @@ type Interp struct {
 	OnReqFail  func(st *State, rq Requirement, x *ssa.Call)
 	// SumLoops: summarise counted/range loops by one symbolic iteration (closed forms with Σ symbols).
 	SumLoops bool
+	// Abstract: functions applied through an abstract contract instead of their summary (assume-guarantee:
+	// the contract is proven by a separate obligation). See AbstractSpec.
+	Abstract map[*ssa.Function]AbstractSpec
 	// KeyGuards: outcomes with different (canonical) guards are never merged.
 	KeyGuards bool
 	// MergeIfs: if-conversion of branches whose arms rejoin (see merge.go).
@@ -127,6 +130,16 @@ func insideDifferentLoop(li *loopInfo, b, join *ssa.BasicBlock) bool {
 		}
 	}
 	return false
+}
+
+// AbstractSpec is the contract of a length calculator or of the writer it is paired with: the calculator
+// returns the uninterpreted quantity ƒName(arg); the writer emits 8·ƒName(arg)+ExtraBits bits to its writer
+// argument and, when it returns a count, returns ƒName(arg)+ExtraBits/8.
+type AbstractSpec struct {
+	Name      string // name of the uninterpreted quantity (the calculator's name)
+	ArgIdx    int    // index of the argument the quantity depends on
+	Writer    bool
+	ExtraBits int64
 }
 
 // FieldInv is a type-level field invariant.
@@ -232,6 +245,7 @@ type State struct {
 	sumStart  map[*ssa.BasicBlock]sumMark
 	loopIndex map[ssa.Value]bool
 	Events    []Event
+	noZeroTripFork bool
 	stops     []stopFrame // merge points the current path is being run up to (innermost last)
 	reqs      *[]Requirement
 	depth   int
@@ -291,11 +305,35 @@ func (st *State) Interp() *Interp { return st.ip }
 func (st *State) IsFresh(o *Obj) bool { return st.zero[o.ID] }
 
 // Mark records a progress event (e.g. "consume", "delete") on this path.
-func (st *State) Mark(name string) { st.marks[name]++ }
+func (st *State) Mark(name string) {
+	st.marks["#seq"]++
+	st.marks[name] = st.marks["#seq"]
+}
+
+// Unmark clears a progress event (e.g. a seek back to the start undoes consumption).
+func (st *State) Unmark(name string) { delete(st.marks, name) }
+
+// Marks lists the progress events recorded on this path.
+func (st *State) Marks() []string {
+	var out []string
+	for k, v := range st.marks {
+		if v > 0 && k != "#seq" {
+			out = append(out, k)
+		}
+	}
+	sort.Strings(out)
+	return out
+}
+
+// Pred returns what the path knows about a named predicate.
+func (st *State) Pred(key string) (bool, bool) { v, ok := st.Preds[key]; return v, ok }
+
+// HasMark reports whether the event happened on this path.
+func (st *State) HasMark(name string) bool { return st.marks[name] > 0 }
 
 // MarkedSince reports whether a progress event happened since the loop header was entered.
 func (st *State) MarkedSince(h *ssa.BasicBlock, name string) bool {
-	return st.marks[name] > st.loopMk[h][name]
+	return st.marks[name] > st.loopMk[h]["#seq"]
 }
 
 // Prove tries to show f >= 0 in this state.
@@ -1114,7 +1152,7 @@ func (ip *Interp) Summarize(f *ssa.Function) *Summary {
 				st.acc = cloneAccMap(st.acc)
 				st.acc[b] = acc
 				for k := range acc.marks {
-					st.marks[k]++ // every completed iteration so far established these (checked at each back edge)
+					st.Mark(k) // every completed iteration so far established these (checked at each back edge)
 				}
 				st.havocLoop(b, li.body[b])
 				st.runHeader(st, b, from, li, false, runFrom)
@@ -1363,7 +1401,7 @@ func (st *State) noteBackEdge(h, from *ssa.BasicBlock) {
 	if acc := st.acc[h]; acc != nil {
 		since := map[string]bool{}
 		for k, v := range st.marks {
-			if v > st.loopMk[h][k] {
+			if k != "#seq" && v > st.loopMk[h]["#seq"] {
 				since[k] = true
 			}
 		}
@@ -1600,7 +1638,7 @@ func (st *State) edgePending(c *Cond, tv bool) {
 func (st *State) makeOutcome(f *ssa.Function, res []Val) *Outcome {
 	o := &Outcome{Results: res, Mem: map[string]Val{}, Preds: map[string]bool{}, Marks: map[string]bool{}}
 	for k, v := range st.marks {
-		if v > 0 {
+		if v > 0 && k != "#seq" {
 			o.Marks[k] = true
 		}
 	}
@@ -1732,7 +1770,7 @@ func (st *State) makeOutcome(f *ssa.Function, res []Val) *Outcome {
 	o.Events = append([]Event{}, st.Events...)
 	o.ParamConds = map[string]bool{}
 	for k, v := range st.Preds {
-		if (strings.HasPrefix(k, "$") || strings.HasPrefix(k, "nil:$")) && !strings.Contains(k, "~") {
+		if (strings.HasPrefix(k, "$") || strings.HasPrefix(k, "nil:$") || strings.HasPrefix(k, "isa:$")) && !strings.Contains(k, "~") {
 			o.ParamConds[k] = v
 		}
 		if strings.HasPrefix(k, "pure:") {
@@ -1818,6 +1856,12 @@ func outcomeKey(o *Outcome, st *State) string {
 	}
 	sort.Strings(ps)
 	sb.WriteString(strings.Join(ps, ";"))
+	var ms []string
+	for k := range o.Marks {
+		ms = append(ms, k)
+	}
+	sort.Strings(ms)
+	sb.WriteString("|" + strings.Join(ms, ","))
 	if st.ip.KeyGuards {
 		sb.WriteString("|")
 		sb.WriteString(strings.Join(st.ip.canonConstraints(o.Facts, o.NE), "&"))
@@ -1879,8 +1923,13 @@ func joinOutcome(a, b *Outcome, ip *Interp) {
 	}
 	a.Facts = keep
 	for k := range a.Marks {
-		if !b.Marks[k] {
+		if !b.Marks[k] && !strings.HasPrefix(k, "may:") {
 			delete(a.Marks, k)
+		}
+	}
+	for k := range b.Marks {
+		if strings.HasPrefix(k, "may:") {
+			a.Marks[k] = true
 		}
 	}
 	if eventsSig(a.Events) != eventsSig(b.Events) {
